@@ -17,7 +17,9 @@ tries JSON first and Gambit on its Err edge; (2) wiring (frozen from the help te
 preset)) and truncate(thresh <- -c); (3) clip — the condition is the strict `regret(evaluation of the
 truncated clone) < regret(evaluation of the original)`; on its true edge both the strategies and
 their evaluation are replaced, on the false edge neither, so at the output the pair is (S, eval(S))
-on every path; (4) both destinations serialise the same `out` value with the same function.
+on every path — independently of how the comparison is written, wherever the local that the output's as_named reads is
+re-assigned, the local its player_utility reads is re-assigned under the same guards; (4) both destinations serialise the same `out` value with the same function.
+(5) no option has a hand-written value parser that rejects values of its type by magnitude (no range is documented).
 Thread-count independence is C06; validity of what is printed is C18.
 """
 ASSUMPTIONS = ['clap maps the documented flags to the fields of Args (derive macro)']
@@ -32,12 +34,92 @@ def snake_rev(x):
     return ''.join(w.capitalize() for w in x.split('_'))
 
 
+def option_value_parsers(ctx):
+    """an option documented without a range accepts every value of its type: a hand-written `value_parser` of the binary
+    that returns Err under a comparison of the parsed value rejects part of the range (`--clip-threshold 1` is a legal
+    threshold).  A custom parser without such a test is not decided."""
+    rule = 'C16.option-ranges'
+    b = ctx.bin
+    custom = set()
+    for n, f in b.fns.items():
+        if 'augment_args' not in n or '{closure' in n:
+            continue
+
+        def walk(x):
+            if isinstance(x, dict):
+                if x.get('k') == 'fn' and x.get('path') in b.fns and not x['path'].startswith('<'):
+                    custom.add(x['path'])
+                for v in x.values():
+                    walk(v)
+            elif isinstance(x, list):
+                for v in x:
+                    walk(v)
+        walk(f.j['blocks'])
+    if not custom:
+        ctx.ok(rule, rule, 'no option has a hand-written value parser: every option accepts every value of its type', '', 'clap\'s inferred parsers only')
+        return
+    for name in sorted(custom):
+        g = b.fns[name]
+        ctx.touch(g)
+        errs = [bi for bi, st, e in q.agg_sites(g, 'result::Result', 'Err')]
+        tests = []
+        for bi in errs:
+            for c in g.conds(bi):
+                if c['kind'] in ('Lt', 'Le', 'Gt', 'Ge', 'Is:contains', 'IsFinite', 'IsNan', 'IsInfinite'):
+                    tests.append('%s(%s) edge %s' % (c['kind'], facts.show(c['a'])[:40], c.get('truth')))
+        if tests:
+            ctx.bad(rule, '%s:%s' % (rule, name), 'a value parser written for an option does not reject values of the option\'s type by their magnitude (no range is documented)', g.where(0),
+                    'returns Err under: %s' % sorted(set(tests))[:4], breaks='documented option values (a clip threshold of 1 or above, a negative one) abort the program instead of taking effect')
+        else:
+            ctx.anchor_lost(rule, 'value parser %s: which values it rejects' % name)
+
+
+def info_follows_strategies(ctx, m):
+    """whatever way the better profile is selected: the evaluation that is printed is re-assigned wherever the strategies
+    that are printed are.  S = the local the output's `as_named` reads, X = the local its `player_utility` / `regret`
+    calls read; every re-definition of S (after the first) has a re-definition of X in the same block whose value is the
+    evaluation of what S becomes (or both are components of one selected pair, which other clauses decide)."""
+    rule = 'C16.clip'
+    b = ctx.bin
+    roots = {}
+    for nm_ in ('as_named', 'player_utility'):
+        cs = q.calls_named(m, nm_)
+        rs = {m.root_place(t['args'][0]) for bi, t, e in cs if t['args'] and t['args'][0].get('o') in ('copy', 'move')}
+        rs = {r_ for r_ in rs if r_ is not None and r_[0][0] == 'var' and not r_[1]}
+        if len(rs) == 1:
+            roots[nm_] = next(iter(rs))[0][1]
+    if len(roots) != 2:
+        return          # the output reads them through something else (a pair / record): decided by the other clauses
+    S, X = roots['as_named'], roots['player_utility']
+    sd = [d for d in m.defs.get(S, [])]
+    xd = [d for d in m.defs.get(X, [])]
+    if len(sd) < 2:
+        return
+    first = min(d[1] for d in sd)
+    bad = []
+    n = 0
+    for d in sd:
+        if d[1] == first:
+            continue
+        n += 1
+        guards = lambda bi_: {(c['switch'], str(c.get('truth')), str(c.get('variants'))) for c in m.conds(bi_)}
+        same_block = [x for x in xd if x[1] == d[1] or (x[1] != first and guards(x[1]) == guards(d[1]))]
+        if not same_block:
+            bad.append(m.where(d[1]))
+    ctx.verdict(not bad, rule, rule + ':info-follows-strategies', 'wherever the strategies to be printed are replaced, the evaluation to be printed is replaced with them', m.where(sd[-1][1]),
+                '`%s` is re-assigned at %d place(s); without a re-assignment of `%s` next to it: %s' % (m.local_name(S) or '_%d' % S, n, m.local_name(X) or '_%d' % X, bad or 'none'),
+                breaks='the printed utilities / regrets belong to another profile than the printed strategies')
+
+
 def run(ctx):
     b = ctx.bin
     if b is None:
         ctx.anchor_lost('C16.anchor', 'binary crate facts', hard=True)
         return
     m = ctx.fn('bin', 'main', 'C16.anchor')
+    if m is not None:
+        info_follows_strategies(ctx, m)
+    option_value_parsers(ctx)
     # ---------------- (1) tables
     rule = 'C16.table-discount'
     # wherever the mapping lives (Discount::into_params, or inlined into main): every call of a RegretParams
@@ -107,6 +189,15 @@ def run(ctx):
                 if short(p) == 'solve' and 'Game' in p:
                     return 'no-parser'
             return None
+        def stmt_sink(self, f, bi, st, it):
+            # the body of a reader that sits behind a private trait (`impl Format for json::Json { fn read(..) }`),
+            # resolved and spliced in by the normalisation: the module of the implementing type names the parser
+            nm = st.get('spliced')
+            if nm and nm.startswith('<') and ' as ' in nm:
+                mod = nm[1:].split(' as ', 1)[0].lstrip('&').split('::')[0]
+                if mod in ('json', 'gambit', 'auto'):
+                    return mod
+            return None
     it = absint.run(m, Dispatch())
     n = sum(1 for p_ in it.paths if p_.sink != 'no-parser')
     if it.overflow or n == 0:
@@ -117,6 +208,8 @@ def run(ctx):
         for (stdin, fmt, ej, ee), (sinks, und) in sorted(tab.items(), key=str):
             if ej and ee:
                 continue    # a name cannot end in both
+            if stdin and (ej or ee):
+                continue    # the name "-" ends in neither (the order in which the two are tested is free)
             want = {'Json': 'json', 'Gambit': 'gambit'}.get(fmt) or ('auto' if stdin else 'json' if ej else 'gambit' if ee else 'auto')
             ext = 'json' if ej else 'efg' if ee else 'other'
             key = '%s:%s:%s:%s' % (rule, 'stdin' if stdin else 'file', fmt, ext)
@@ -303,6 +396,12 @@ def run(ctx):
                 if x[0] == 'var':
                     strat_l = x[1]
         good = info_l in assigned_true and strat_l in assigned_true and assigned_true.get(info_l) == la and pa is not None and not isinstance(pa, set) and assigned_true.get(strat_l) == pa
+        if not good and len(assigned_true) == 1 and not assigned_false:
+            # the pair kept in one record that is replaced as a whole: `profile = Profile { strategies: pruned, info: its evaluation }`
+            (_, v_), = assigned_true.items()
+            if v_[0] == 'agg' and v_[1] == 'tuple' and len(v_[2]) == 2 and pa is not None and not isinstance(pa, set):
+                comps = [norm(x) for x in v_[2]]
+                good = any(x == la for x in comps) and any(x == pa or facts.show(x) == facts.show(pa) for x in comps)
         # functional form: both edges build the pair `(profile, its evaluation)` — `if better { (pruned, pruned_info) } else { (original, info) }`
         tuple_form = False
         pairs = {True: [], False: []}
